@@ -31,7 +31,7 @@ type pkgContext struct {
 	// Mapping from package import paths to JS variables that were assigned to an
 	// imported package and can be used to access it.
 	pkgVars      map[string]string
-	varPtrNames  map[*types.Var]string
+	varPtrNames  map[varPtrKey]string
 	anonTypes    []*types.TypeName
 	anonTypeMap  typeutil.Map
 	escapingVars map[*types.Var]bool
@@ -126,7 +126,7 @@ func newRootCtx(tContext *types.Context, srcs *sources.Sources, minify bool) *fu
 
 			typesCtx:     tContext,
 			pkgVars:      make(map[string]string),
-			varPtrNames:  make(map[*types.Var]string),
+			varPtrNames:  make(map[varPtrKey]string),
 			escapingVars: make(map[*types.Var]bool),
 			indentation:  1,
 			minify:       minify,
